@@ -25,6 +25,8 @@ THEOREMS = [
     "C11.statements_before_drop_target_tmp",
     "C11.safe_statement_keeps_original",
     "C11.early_indexes_intact",
+    "C11.recreates_iff_plan_has_createTmp",
+    "C11.early_tmp_left_behind_iff",
     "C11.retrievable",
     "C11.late",
     "C11.superset",
@@ -97,7 +99,7 @@ def judge(ctx, pending):
     ops = []
     for case, r in pending:
         ops.append(bc.model_op(case, r))
-        failed = applicable(r, case)
+        failed = r["outcome"] != "ok"      # whether it is a failed *recreate* is decided below, by the Lean rule Model.Batch.recreates
         judged = failed and (r["before"]["orig"] or case.get("orig0"))
         ops.append(bc.spec11_op(case, r, "fresh") if judged else {"op": "noop"})
         ops.append(bc.spec11_op(case, r, "same") if judged else {"op": "noop"})
@@ -124,7 +126,11 @@ def judge(ctx, pending):
         if case.get("schema") and bc.main_untouched(r):
             why = bc.main_untouched(r)
             ctx.fail(input_of(case), "schema: %s" % "; ".join(why)[:500], impl=bc.brief(r), tags=["schema"])
-        if applicable(r, case):
+        is_recreate = m.get("recreates", bc.recreates(case)) if not case.get("battery") else applicable(r, case)
+        if "recreates" in m and not case.get("battery") and m["recreates"] != bc.recreates(case):
+            # the harness' Python twin of the rule (used for histograms only) must agree with the Lean rule on every case
+            ctx.disagree("batch.recreates", input_of(case), {"python": bc.recreates(case)}, {"lean": m["recreates"]}, note="recreates rule")
+        if failed and is_recreate:
             for view, s in (("fresh", s1), ("same", s2)):
                 if "holds" in s and s["holds"] is not True:
                     why = s.get("why") or [json.dumps(s)]
